@@ -139,7 +139,7 @@ theorem roundD_wf {ip fp : List Char} (h : MantWF ip fp) {p : Nat} (hp : 0 < p) 
         have hdt := incStrip_nil_of_not_pend hnil hpend
         obtain ⟨z1, z2, z3⟩ := dropZeros_spec fp
         have hdz : dropZeros fp ≠ [] := by
-          have := (sigDigits_kindDig h).2.2
+          have := (sigDigits_kindDig h).2.2.1
           simpa [sigDigits, hi] using this
         refine take_zeros_nonzero z1 z3 hdz ?_ hdt
         rw [← hk]; simp [hi]; omega
@@ -237,6 +237,7 @@ theorem decimalCore_lex (neg : Bool) (ip fp : List Char) (dot : Bool) (p : Int)
         simp only [] at hwf ⊢
         have hol := outLex_plain neg r1 r2 (!r2.isEmpty) hwf.dip hwf.dfp
           (by intro h; cases r2 with | nil => rfl | cons _ _ => simp at h) hwf.nonempty
+          (by intro h; cases r2 with | nil => simp at h | cons _ _ => simp) hwf.lead
         have hstr : (if (!r2.isEmpty) = true then '.' :: r2 else []) = (if r2.isEmpty = true then [] else '.' :: r2) := by
           cases r2 <;> simp
         rw [hstr] at hol
